@@ -35,8 +35,7 @@ def numChars (m : Int) (d : Nat) : List Char :=
   (if m < 0 then ['-'] else []) ++ (natDigits (m.natAbs / 10 ^ d)).map digitChar ++
     (if d = 0 then [] else '.' :: (lastDigits m.natAbs d).map digitChar)
 
-def intChars (z : Int) : List Char :=
-  (if z < 0 then ['-'] else []) ++ (natDigits z.natAbs).map digitChar
+def intChars (z : Int) : List Char := numChars z 0
 
 def pmChars (latex : Bool) : List Char := if latex then ['\\', 'p', 'm'] else ['+', '/', '-']
 
@@ -64,9 +63,8 @@ def stripSign : List Char → Bool × List Char
 
 def signed (neg : Bool) (n : Nat) : Int := if neg then -(n : Int) else (n : Int)
 
-/-- a whole token `[-]ddd[.ddd]` → (mantissa, number of decimals) -/
-def parseNum (l : List Char) : Option (Int × Nat) :=
-  let (neg, body) := stripSign l
+/-- the unsigned part `ddd[.ddd]` of a token -/
+def parseBody (neg : Bool) (body : List Char) : Option (Int × Nat) :=
   let (ip, rest) := spanL isDig body
   if ip = [] then none
   else match rest with
@@ -76,6 +74,10 @@ def parseNum (l : List Char) : Option (Int × Nat) :=
           some (signed neg (ofDigits ((ip ++ fr).map charVal)), fr.length)
         else none
     | _ => none
+
+/-- a whole token `[-]ddd[.ddd]` → (mantissa, number of decimals) -/
+def parseNum (l : List Char) : Option (Int × Nat) :=
+  parseBody (stripSign l).1 (stripSign l).2
 
 /-- the separator (plus-slash-minus or backslash-pm, between blanks) in front of the rest -/
 def stripPm : List Char → Option (Bool × List Char)
